@@ -671,8 +671,8 @@ theorem cursor_roundtrip_score (c : ScoreCursor) (hw : c.wf) (hv : c.version = c
 /-- the same through `decode_cursor` of a default-sort request of the same generation -/
 theorem decodeCursor_encodeScore (req : Req) (c : ScoreCursor) (hw : c.wf) (hv : c.version = cursorVersion)
     (hr : c.returned ≤ maxCursorAdvance) (hf : req.scoreFast = true) (hg : c.generation = req.generation) :
-    decodeCursor req (encodeScore c) = .ok { values := [.score c.scoreBits], segmentOrd := c.segmentOrd,
-      docId := c.docId, returned := c.returned, generation := c.generation, planHash := none } := by
+    decodeCursor req (encodeScore c) =
+      .ok ⟨[.score c.scoreBits], c.segmentOrd, c.docId, c.returned, c.generation, none⟩ := by
   apply (decodeCursor_ok req _ _).mpr
   exact Or.inl ⟨hf, c, cursor_roundtrip_score c hw hv hr, hg, rfl⟩
 
